@@ -190,7 +190,12 @@ def decompress(filename, tmpdir=None, target=None):
     compfile = get_compressor(fmt)
     try:
         if fmt == 'zip':
-            shutil.copyfileobj(compfile(filename, 'r').open(filebase, 'r'),
+            archive = compfile(filename, 'r')
+            members = archive.namelist()
+            if filebase not in members and len(members) == 1:
+                # The archive has been renamed after its creation
+                filebase = members[0]
+            shutil.copyfileobj(archive.open(filebase, 'r'),
                                tmpfile,
                                chunksize)
         else:
